@@ -102,8 +102,10 @@ def lookup (m : List (List Char × Val)) (k : List Char) : Option Val :=
   | [] => none
   | (k', v) :: rest => if k' = k then some v else lookup rest k
 
-def isDigit (ch : Char) : Bool := ch.toNat ≥ 48 && ch.toNat ≤ 57
-def digitVal (ch : Char) : Nat := ch.toNat - 48
+/-- `arg->ch >= '0' && arg->ch <= '9'` -/
+def isDigit (ch : Char) : Bool := '0' ≤ ch && ch ≤ '9'
+/-- `arg->ch - '0'` -/
+def digitVal (ch : Char) : Nat := ch.toNat - '0'.toNat
 
 /-- "Skip over balanced parentheses": the key and what follows the closing parenthesis; `none` = ran off the end -/
 def readKey : Nat → List Char → Option (List Char × List Char)
@@ -138,16 +140,6 @@ def readChar : List Char → Except Err (Char × List Char)
   | [] => .error .incompleteFormat
   | c :: cs => .ok (c, cs)
 
-/-- the result of `unicode_format_arg_parse`: what the formatting step looks at -/
-structure Spec where
-  /-- `arg->prec` (`none` = -1) -/
-  prec : Option Nat
-  /-- `arg->width`, `arg->flags`: do not influence success -/
-  width : Option Nat
-  flags : List Char
-  ch : Char
-  deriving Repr
-
 /-- "Get argument value from a dictionary" -/
 def parseKey (cs : List Char) (c : Ctx) : Except Err (List Char × Ctx) :=
   match cs with
@@ -163,8 +155,9 @@ def parseKey (cs : List Char) (c : Ctx) : Except Err (List Char × Ctx) :=
         | some v => .ok (r', { c with cur := .one v false })
   | _ => .ok (cs, c)
 
-/-- "Parse width" -/
-def parseWidth (ch : Char) (rest : List Char) (c : Ctx) : Except Err (Option Nat × Char × List Char × Ctx) :=
+/-- "Parse width": a `*` fetches an `int` argument (`PyLong_AsSsize_t`), a numeral may be too big; the value itself
+    (`arg->width`, and `F_LJUST` for a negative `*`) influences only the produced text and is not returned -/
+def parseWidth (ch : Char) (rest : List Char) (c : Ctx) : Except Err (Char × List Char × Ctx) :=
   if ch = '*' then
     match getNextArg c with
     | .error e => .error e
@@ -174,13 +167,13 @@ def parseWidth (ch : Char) (rest : List Char) (c : Ctx) : Except Err (Option Nat
       else
         match readChar rest with
         | .error e => .error e
-        | .ok (ch, rest) => .ok (some n.natAbs, ch, rest, c)
+        | .ok (ch, rest) => .ok (ch, rest, c)
     | .ok (_, _) => .error .starWantsInt
   else if isDigit ch then
     match readDigits PY_SSIZE_T_MAX .widthTooBig (digitVal ch) rest with
     | .error e => .error e
-    | .ok (w, ch, rest) => .ok (some w, ch, rest, c)
-  else .ok (none, ch, rest, c)
+    | .ok (_, ch, rest) => .ok (ch, rest, c)
+  else .ok (ch, rest, c)
 
 /-- "Parse precision" -/
 def parsePrec (ch : Char) (rest : List Char) (c : Ctx) : Except Err (Option Nat × Char × List Char × Ctx) :=
@@ -206,17 +199,19 @@ def parsePrec (ch : Char) (rest : List Char) (c : Ctx) : Except Err (Option Nat 
       else .ok (some 0, ch, rest, c)
   else .ok (none, ch, rest, c)
 
-/-- `unicode_format_arg_parse` (the characters after the `%`, which is not followed by another `%`) -/
-def argParse (cs : List Char) (c : Ctx) : Except Err (Spec × List Char × Ctx) :=
+/-- `unicode_format_arg_parse` (the characters after the `%`, which is not followed by another `%`): `arg->prec`
+    (`none` = -1), `arg->ch`, the unread rest, the context.  `arg->width` and `arg->flags` are parsed (a `*` width
+    fetches its argument, a numeral can be too big) but influence only the produced text, so they are not returned. -/
+def argParse (cs : List Char) (c : Ctx) : Except Err (Option Nat × Char × List Char × Ctx) :=
   match parseKey cs c with
   | .error e => .error e
   | .ok (cs, c) =>
     match readFlags cs with
     | none => .error .incompleteFormat
-    | some (flags, ch, rest) =>
+    | some (_flags, ch, rest) =>
       match parseWidth ch rest c with
       | .error e => .error e
-      | .ok (width, ch, rest, c) =>
+      | .ok (ch, rest, c) =>
         match parsePrec ch rest c with
         | .error e => .error e
         | .ok (prec, ch, rest, c) =>
@@ -224,16 +219,15 @@ def argParse (cs : List Char) (c : Ctx) : Except Err (Spec × List Char × Ctx) 
           if ch = 'h' ∨ ch = 'l' ∨ ch = 'L' then
             match readChar rest with
             | .error e => .error e
-            | .ok (ch, rest) => .ok ({ prec, width, flags, ch }, rest, c)
-          else .ok ({ prec, width, flags, ch }, rest, c)
+            | .ok (ch, rest) => .ok (prec, ch, rest, c)
+          else .ok (prec, ch, rest, c)
 
 /-- the largest magnitude that `PyLong_AsDouble` converts: `int` → `float` overflows from `2^1024 - 2^970` on
     (round-half-even at the top binade) -/
 def floatLimit : Nat := 2 ^ 1024 - 2 ^ 970
 
 /-- `unicode_format_arg_format`'s `switch (arg->ch)` on the fetched value -/
-def formatValue (sp : Spec) (v : Val) : Except Err Unit :=
-  let ch := sp.ch
+def formatValue (ch : Char) (prec : Option Nat) (v : Val) : Except Err Unit :=
   if ch = 's' ∨ ch = 'r' ∨ ch = 'a' then .ok ()
   else if ch = 'd' ∨ ch = 'i' ∨ ch = 'u' ∨ ch = 'o' ∨ ch = 'x' ∨ ch = 'X' then
     -- mainformatlong
@@ -244,7 +238,7 @@ def formatValue (sp : Spec) (v : Val) : Except Err Unit :=
       | _ => false
     if !number then .error .badArgType
     else
-      match sp.prec with
+      match prec with
       | some p => if p > INT_MAX - 3 then .error .overflow else .ok ()    -- "precision too large"
       | none => .ok ()
   else if ch = 'e' ∨ ch = 'E' ∨ ch = 'f' ∨ ch = 'F' ∨ ch = 'g' ∨ ch = 'G' then
@@ -263,11 +257,11 @@ def formatValue (sp : Spec) (v : Val) : Except Err Unit :=
 def formatArg (cs : List Char) (c : Ctx) : Except Err (List Char × Ctx) :=
   match argParse cs c with
   | .error e => .error e
-  | .ok (sp, rest, c) =>
+  | .ok (prec, ch, rest, c) =>
     match getNextArg c with
     | .error e => .error e
     | .ok (v, c) =>
-      match formatValue sp v with
+      match formatValue ch prec v with
       | .error e => .error e
       | .ok () =>
         if c.dict.isSome && c.unconverted then .error .notAllConverted
